@@ -197,7 +197,7 @@ class SigmaDetectionItem(ProcessingItemTrackingMixin, ParentChainMixin):
             else:
                 return value.to_plain()
 
-        if len(self.original_value) > 1:
+        if len(self.original_value) != 1:  # also an empty value list is written as list
             value: str | int | float | bool | None | list[str | int | float | bool | None] = [
                 value_to_plain(value) for value in self.original_value
             ]
